@@ -298,6 +298,18 @@ func c06Static(c *core.Ctx) {
 			sgen.Corrupt(a, r, 1+r.Intn(3)) // determinism also holds for feeds with rejected rows
 			c.Feature("static-with-corruptions")
 		}
+		if r.Chance(1, 2) {
+			// repeated rows (the same id / the same exception twice): whatever the parser makes of them, it makes the same every time
+			for _, t := range a.Tables {
+				if len(t.Rows) > 0 && r.Chance(1, 3) {
+					for k := 0; k < 1+r.Intn(2); k++ {
+						row := append([]string(nil), t.Rows[r.Intn(len(t.Rows))]...)
+						t.InsertRow(r.Intn(len(t.Rows)+1), row)
+					}
+				}
+			}
+			c.Feature("static-with-repeated-rows")
+		}
 		rb, err := core.NewROBuf(sgen.Encode(a, &sgen.Presentation{Plain: r.Bool(), R: r.Fork()}))
 		if err != nil {
 			c.Note("harness_error", err.Error())
